@@ -43,10 +43,16 @@ type Pool struct {
 // NewPool starts n executors for family; on is called (serialised) per result.
 func NewPool(family string, n int, on func(Result)) *Pool {
 	self, _ := os.Executable()
+	if PoolBinary != "" {
+		self = PoolBinary
+	}
 	if n <= 0 {
 		n = runtime.NumCPU()
+		if PoolSize > 0 {
+			n = PoolSize
+		}
 	}
-	p := &Pool{self: self, family: family, reqs: make(chan []byte, 4*n), on: on, Timeout: 20 * time.Second}
+	p := &Pool{self: self, family: family, reqs: make(chan []byte, 4*n), on: on, Timeout: 20 * time.Second, Env: PoolEnv}
 	for i := 0; i < n; i++ {
 		p.wg.Add(1)
 		go p.worker()
@@ -169,6 +175,15 @@ func (p *Pool) deliver(r Result) {
 	p.on(r)
 }
 
+// PoolBinary, PoolSize and PoolEnv override the executable, the number of
+// children and the environment of the pools created next (used by C19 for the
+// race-detector build and for timing-sensitive replays).
+var (
+	PoolBinary string
+	PoolSize   int
+	PoolEnv    []string
+)
+
 // Handler executes one request against the real library inside a child.
 type Handler func(req []byte) any
 
@@ -224,6 +239,8 @@ func TopFrame(stack string) string {
 func CrashSig(stderr string) string {
 	kind := "exit"
 	switch {
+	case strings.Contains(stderr, "DATA RACE"):
+		return "data-race:" + TopFrame(stderr)
 	case strings.Contains(stderr, "stack overflow"), strings.Contains(stderr, "goroutine stack exceeds"):
 		kind = "stack-overflow"
 	case strings.Contains(stderr, "fatal error:"):
